@@ -502,9 +502,13 @@ func (g *generator) Assign(
 		return builder.ToAssignable(assignTo)(g.Build(ctx, sourceID, source, target, errPath))
 	}
 
-	stmt, nextID, err := g.callExisting(ctx, sourceID, source, target, errPath)
-	if nextID != nil || err != nil {
-		return builder.ToAssignable(assignTo)(stmt, nextID, err)
+	// A generated helper returns a fresh value: calling it would replace the value that is being updated
+	// (the result of a default constructor) instead of applying the source on top of it.
+	if !assignTo.Update || !g.isGeneratedHelper(ctx, source, target) {
+		stmt, nextID, err := g.callExisting(ctx, sourceID, source, target, errPath)
+		if nextID != nil || err != nil {
+			return builder.ToAssignable(assignTo)(stmt, nextID, err)
+		}
 	}
 
 	if g.shouldCreateSubMethod(ctx, source, target) {
@@ -512,6 +516,17 @@ func (g *generator) Assign(
 	}
 
 	return g.assignNoLookup(ctx, assignTo, sourceID, source, target, errPath)
+}
+
+// isGeneratedHelper reports whether the conversion would be delegated to a method generated by goverter,
+// i.e. neither a custom function nor a method declared by the user.
+func (g *generator) isGeneratedHelper(ctx *builder.MethodContext, source, target *xtype.Type) bool {
+	signature := xtype.SignatureOf(source, target)
+	if def, _ := g.extend.Get(signature, ctx.AvailableContext); def != nil {
+		return false
+	}
+	genMethod, _ := g.lookup.Get(signature, ctx.AvailableContext)
+	return genMethod != nil && !genMethod.Explicit
 }
 
 func (g generator) callExisting(
